@@ -1,8 +1,11 @@
 (* Model of semantic/version-maven.go. No proofs here. *)
 From Coq Require Import List ZArith NArith Bool.
-From Scalibr Require Import Semantic.Cmp Semantic.LexPad Semantic.Bytes.
+From Scalibr Require Import Semantic.Cmp Semantic.LexPad Semantic.Bytes Semantic.Generated_Tables.
 Import ListNotations.
 Open Scope N_scope.
+
+(* Keyword order, alias rewrites, null values: taken from Generated_Tables.v, which harness/cmd/semtables
+   regenerates from version-maven.go on every run. *)
 
 (* type mavenVersionToken struct { prefix string; value string; isNull bool } *)
 Record mtok := { mt_prefix : bytes; mt_value : bytes; mt_null : bool }.
@@ -48,17 +51,16 @@ Definition pieces (raw : bytes) : list bytes := trans_split (runes raw) [] None.
 
 Definition str_in (s : bytes) (l : list bytes) : bool := existsb (bytes_eqb s) l.
 
-(* normalisation of one piece; [last] = it is the last piece of its raw token *)
+(* `if current == from { current = to }`, one after the other *)
+Definition rewrite_aliases (tbl : list (bytes * bytes)) (c : bytes) : bytes :=
+  fold_left (fun c p => if bytes_eqb c (fst p) then snd p else c) tbl c.
+
+(* normalisation of one piece; [last] = it is the last piece of its raw token.
+   gen_maven_aliases: "" -> "0", cr -> rc, ga / final / release -> "";
+   gen_maven_aliases_before_digit (only when directly followed by a number): a -> alpha, b -> beta, m -> milestone *)
 Definition norm_piece (p : bytes) (last : bool) : bytes :=
-  let c := to_lower p in
-  let c := if is_nil c then s_zero else c in
-  let c := if bytes_eqb c [99; 114] then [114; 99] else c in                              (* cr -> rc *)
-  let c := if str_in c [[103; 97]; [102; 105; 110; 97; 108]; [114; 101; 108; 101; 97; 115; 101]] then [] else c in  (* ga final release *)
-  let c := if last then c
-           else if bytes_eqb c [97] then [97; 108; 112; 104; 97]                          (* a -> alpha *)
-           else if bytes_eqb c [98] then [98; 101; 116; 97]                               (* b -> beta *)
-           else if bytes_eqb c [109] then [109; 105; 108; 101; 115; 116; 111; 110; 101]   (* m -> milestone *)
-           else c in
+  let c := rewrite_aliases gen_maven_aliases (to_lower p) in
+  let c := if last then c else rewrite_aliases gen_maven_aliases_before_digit c in
   match big_of_string c with Some z => Z_to_dec z | None => c end.
 
 Fixpoint toks_of_pieces (pfx : bytes) (ps : list bytes) : list mtok :=
@@ -71,8 +73,7 @@ Definition tokenise (s : bytes) : list mtok :=
   flat_map (fun pr : bytes * bytes => toks_of_pieces (fst pr) (pieces (snd pr))) (raw_split s [] []).
 
 (* shouldTrim *)
-Definition should_trim (t : mtok) : bool :=
-  str_in (mt_value t) [s_zero; []; [102; 105; 110; 97; 108]; [103; 97]].
+Definition should_trim (t : mtok) : bool := str_in (mt_value t) gen_maven_should_trim.
 
 Definition dummy_tok : mtok := {| mt_prefix := []; mt_value := []; mt_null := false |}.
 
@@ -114,8 +115,8 @@ Definition kw_beta : bytes := [98; 101; 116; 97].
 Definition kw_milestone : bytes := [109; 105; 108; 101; 115; 116; 111; 110; 101].
 Definition kw_rc : bytes := [114; 99].
 Definition kw_snapshot : bytes := [115; 110; 97; 112; 115; 104; 111; 116].
-(* var keywordOrder = []string{"alpha", "beta", "milestone", "rc", "snapshot", "", "sp"} *)
-Definition keyword_order : list bytes := [kw_alpha; kw_beta; kw_milestone; kw_rc; kw_snapshot; []; s_sp].
+(* var keywordOrder: the generated table (the constants above are only used to STATE lemmas about it) *)
+Definition keyword_order : list bytes := gen_maven_keyword_order.
 
 Fixpoint find_idx (k : bytes) (l : list bytes) (i : nat) : nat :=
   match l with [] => i | x :: r => if bytes_eqb x k then i else find_idx k r (S i) end.
@@ -151,7 +152,7 @@ Definition tok_lt (x y : mtok) : outcome bool :=
 (* newMavenNullVersionToken *)
 Definition null_of (t : mtok) : outcome mtok :=
   if bytes_eqb (mt_prefix t) s_dot
-  then Ok {| mt_prefix := s_dot; mt_value := if bytes_eqb (mt_value t) s_sp then [] else s_zero; mt_null := true |}
+  then Ok {| mt_prefix := s_dot; mt_value := if str_in (mt_value t) gen_maven_empty_dot_padding_for then [] else s_zero; mt_null := true |}
   else if bytes_eqb (mt_prefix t) s_dash then Ok {| mt_prefix := s_dash; mt_value := []; mt_null := true |}
   else Err.
 
@@ -190,11 +191,11 @@ Definition mtok_eqb (x y : mtok) : bool := tok_equal x y && Bool.eqb (mt_null x)
 Definition maven_eqb (v w : maven) : bool := list_eqb mtok_eqb (mv_tokens v) (mv_tokens w).
 
 (* ------------------------------------------------------------------ domains *)
-(* a token as the tokeniser builds it: not null; a numeric value is the canonical decimal of a
-   non-negative number (convertToBigInt(...).String()) *)
+(* a token as the tokeniser builds it: not null; a numeric value is in canonical decimal form
+   (convertToBigInt(...).String()) *)
 Definition canon_value (s : bytes) : bool :=
   match big_of_string s with
-  | Some z => (0 <=? z)%Z && bytes_eqb s (Z_to_dec z)
+  | Some z => bytes_eqb s (Z_to_dec z)
   | None => true
   end.
 Definition tok_wf (t : mtok) : bool := negb (mt_null t) && canon_value (mt_value t).
@@ -215,7 +216,11 @@ Definition maven_wf (v : maven) : bool :=
    which equals an absent token -- sorts above every qualifier *)
 Definition dot_qual_ok (t : mtok) : bool :=
   negb (bytes_eqb (mt_prefix t) s_dot) || is_some (big_of_string (mt_value t)) || Nat.ltb (kw_idx (mt_value t)) 6.
-Definition valid_maven (v : maven) : bool := maven_wf v && forallb dot_qual_ok (mv_tokens v).
+(* numbers are not negative (the tokeniser never builds "-5": '-' is a separator) *)
+Definition num_nonneg (t : mtok) : bool :=
+  match big_of_string (mt_value t) with Some z => (0 <=? z)%Z | None => true end.
+Definition valid_maven (v : maven) : bool :=
+  maven_wf v && forallb (fun t => dot_qual_ok t && num_nonneg t) (mv_tokens v).
 
 (* D, part 2 (relating the versions compared): wherever both have a token, the separators agree *)
 Fixpoint compat (a b : list mtok) : bool :=
